@@ -13,9 +13,9 @@ CHECKS = {
  "C12": dict(technique="runtime monitoring of the real parser/reader: panic+span monitor on hostile texts, print/parse and write/read round-trip oracles",
              text="Exploration: steel-parser is driven directly on seeded hostile texts (panic hook, process-death detection, span-in-bounds monitor); parse(print(parse t)) is compared with parse t with spans erased on shipped/well-formed programs; generated data are written and read back through the real engine and compared by canonical rendering (doubles by bits).",
              note="Trusted: the harness's Debug-based tree comparison and canonical rendering. Invalid UTF-8 cannot reach the &str API and is lossy-decoded first.", ref="DESIGN.md §5 C12"),
- "C07": dict(technique="runtime monitoring under hostile inputs: panic hook + child exit status + before/after probe comparison on the same engine; fork-per-case isolation",
-             text="Exploration: seeded hostile source texts (singly and as multi-unit histories) and calls of every non-effectful procedure bound in a fresh engine with arguments of every value kind and boundary magnitudes are run on the real engine in forked children; a panic reaching the host boundary, a signal/abort/stack overflow, or a probe program answering differently after the input than before is a violation.",
-             note="Trusted: fork isolation and the panic hook. Allocation-failure aborts under the address-space cap and time-outs are inconclusive, not crashes. Externally effectful/blocking builtins are deny-listed.", ref="DESIGN.md §5 C07"),
+ "C07": dict(technique='runtime monitoring under hostile inputs: panic hook + child exit status + before/after probe comparison on the same engine; fork-per-case isolation',
+             text='Exploration: seeded hostile source texts (singly and as multi-unit histories), calls of every non-effectful procedure bound in a fresh engine with arguments of every value kind and boundary magnitudes (plus an adaptive sweep of integer parameters), and functions applying each operator that has its own opcode / native helper to ill-typed run-time operands in 11 code shapes (compiled as a module = native code, top level, JIT off) are run on the real engine in forked children; a panic reaching the host boundary, a signal/abort/stack overflow, or a probe program answering differently after the input than before is a violation.',
+             note='Trusted: fork isolation and the panic hook. Allocation-failure aborts under the address-space cap and time-outs are inconclusive, not crashes. Externally effectful/blocking builtins are deny-listed.', ref="DESIGN.md §5 C07"),
  "C09": dict(technique="invariant at a hook: frame/operand stack depth sampled inside running loops via #%verif-stack-depth; process-survival and peak-RSS monitors at n and 10n iterations",
              text="Exploration: generated tail-loop shapes are run for 10^3..10^5 (quick) / 10^7 (thorough) iterations with JIT on and off; depth samples taken inside the loop at the first, middle and last iteration must stay within a 16-slot slack, the result must equal the closed form, the process must survive, peak RSS at 10n may exceed that at n by at most 48 MB; deep non-tail recursion must end in an error value.",
              note="Trusted: the depth hook reports lengths of the VM's frame and operand stacks; native stack use is covered only by process survival.", ref="DESIGN.md §5 C09"),
@@ -25,9 +25,9 @@ CHECKS = {
  "C01": dict(technique="differential runtime monitoring: real engine (top-level, module mode, JIT off) vs reference CEK machine on seeded type-directed programs; tree-shrinking of witnesses; root-cause attribution",
              text="Exploration: seeded programs accepted by the reference machine under both operand evaluation orders are run on the real engine as a top-level evaluation, as a required module (how `steel file.scm` runs a script) and with the JIT off; outcome, the values passed to (verif-emit ..) in a printer-independent rendering, and stdout are compared; divergences are confirmed alone, shrunk, and attributed to a known root cause by a predicate over the shrunk witness or reported.",
              note="Trusted: vlib/schemeref.py (CEK machine, pinned deviations listed in its docstring) as the reading of the semantics for the generated subset; the generator steers around constructs of known findings, whose fixed witnesses are re-evaluated every run.", ref="DESIGN.md §5 C01"),
- "C02": dict(technique="N-version runtime monitoring: the real engine against itself across OS processes with different STEEL_* switch settings, top-level and module mode, plus multi-unit histories",
-             text="Exploration: the C01 corpus and generated redefinition/assignment histories are evaluated under 8 (quick) / all 32 (thorough) settings of the five switches; every configuration's (outcome, emitted values, stdout) is compared with the all-off baseline; each divergence is explained by the single switch that produces it.",
-             note="Trusted: determinism of the corpus (accepted by the reference machine under both operand orders). The all-off configuration is the baseline.", ref="DESIGN.md §5 C02"),
+ "C02": dict(technique='N-version runtime monitoring: the real engine against itself across OS processes with different STEEL_* switch settings, top-level and module mode, plus multi-unit histories and ill-typed-operand programs',
+             text='Exploration: the C01 corpus (reference-accepted, deterministic), 3-unit redefinition/assignment histories and functions applying inlinable operators to ill-typed run-time operands (errors trapped by a compiled caller) are evaluated under 8 (quick) / 32 (thorough) settings of the five optimisation switches x {top level, module}; any difference in (outcome, emitted values, stdout) from the all-off baseline is a violation, attributed to the single switch that produces it.',
+             note='Trusted: determinism of the corpus (accepted by the reference machine under both operand orders). The all-off configuration is the baseline.', ref="DESIGN.md §5 C02"),
  "C06": dict(technique="differential runtime monitoring over long evaluation histories on one engine vs an executable binding model; H-slot freed-slot-access monitor armed",
              text="Exploration: seeded histories of up to 260 (quick) / 900 (thorough) top-level units over 8 names (hundreds of shadowings, so the global-slot recycler runs), with old functions kept alive in containers and probed every 7 units, failing units of both kinds; every unit's observation is compared with the reference machine's unit/binding model; JIT on and off.",
              note="Trusted: Machine.run_unit as the binding model. After the first divergence of a history the rest of that history is not judged.", ref="DESIGN.md §5 C06"),
@@ -46,12 +46,12 @@ CHECKS = {
  "C05": dict(technique="Miri (UB / use-after-free / data-race interpreter, many scheduler seeds) + native stress of a shadow-model history driver for steel-rc",
              text="Exploration: seeded histories of new/clone/drop/move/get_mut/make_mut/try_unwrap/merge/thread-exit on <=3 threads with an exact shadow count (sequential mode) or schedule-independent assertions (concurrent mode): ~10^5 (quick) / 10^7 (thorough) native operations and 16 (quick) / 512 (thorough) Miri executions.",
              note="Trusted: Miri's model of Rust semantics; schedules are sampled, not enumerated. Only steel-rc is interpreted by Miri (steel-core cannot run under it).", ref="DESIGN.md §5 C05"),
- "C15": dict(technique="thread-stress runtime monitoring: H-slot events from threads running during a collection, crash monitor, result comparison for globals assigned by joined threads and mutex-protected counters; forced collections through the engine's stop-the-world code",
-             text="Exploration: generated programs with 1..8 native threads (channels, mutexes, global assignment, concurrent collectors, threads exiting during collections) under JIT on/off and forced full collections; a freed-slot access from a thread that runs while another collects, a crash, a lost global assignment or an inexact mutex-protected counter is a violation.",
-             note="The scan-overlap hook (H-sync) of the design was not built: 'parked for the whole inspection' is observed only through accesses to slots while they are flagged unreachable by a concurrent collection. OS schedules are sampled.", ref="DESIGN.md §5 C15"),
- "C16": dict(technique="bounded-progress monitoring of thread workloads in killable children + exactly-once / per-sender FIFO checks computed over the received history",
-             text="Exploration: the same generated thread programs; every program must finish by its deadline (20 s quick / 60 s thorough; they take < 1 s when they finish), joins deliver each result once, every sent value is received once and in order per sender.",
-             note="Liveness is restated as bounded progress: a deadline expiry is reported as 'does not finish' (the programs' own logic cannot block). Address-space-cap aborts are inconclusive.", ref="DESIGN.md §5 C16"),
+ "C15": dict(technique="invariant at a hook (H-sync: per-thread 'being inspected' flag set around every foreign read/write of a thread's state by a stopper and checked by the thread at every instruction boundary and when it leaves a safepoint; H-slot freed-slot-access monitor) under thread stress with seeded delays injected at the handshake's suspension points and forced collections through the engine's own stop-the-world code; crash monitor; result oracles for stack-only box chains, global visibility and mutex-protected counters",
+             text="Exploration: generated programs with 1..8 native threads of 11 kinds (channels direct / via map / via apply, mutex-protected global counters, global assignment racing with collections, concurrent collectors, stack-only box chains, threads spawning threads, threads exiting during collections, assign-then-tell visibility) under JIT on/off, top level and compiled as a module, forced full collections every k-th allocation and seeded delays between a thread's last look at its pause flag and the retraction of its context; a '!ran-while-inspected' or freed-slot-access event, a crash, a truncated chain, a stale global or an inexact counter is a violation. Evidence lists the monitors' observations (stop-the-world operations, inspections of other threads, safepoint entries).",
+             note='OS schedules are sampled (perturbed by the injected delays), not enumerated. The flag is checked where a thread starts touching its own state again; a thread running pure native code between two helper calls is not observed until the next call.', ref="DESIGN.md §5 C15"),
+ "C16": dict(technique="bounded-progress monitoring with a stall watchdog on hook counters (H-prog: instructions dispatched, safepoint entries, stop-the-world begun/finished, collections; 'stoppers active' gauge tells a runtime rendezvous from script-level blocking) inside killable children + exactly-once / per-sender FIFO checks computed by the program over the received history",
+             text='Exploration: the same generated thread programs and configurations as C15; a run in which no progress counter moved for 10 s is stalled (violation, with the counters and whether a stop request was pending); reaching the 150 s wall-clock cap while counters still move is inconclusive; joins deliver each result once, every sent value is received once and in order per sender.',
+             note="Liveness is restated as bounded progress decided on logical progress counters, not on the wall clock. The programs' own logic cannot block. Address-space-cap aborts are inconclusive.", ref="DESIGN.md §5 C16"),
  "C17": dict(technique="runtime monitoring of interruption: a second host thread calls ThreadStateController::interrupt() after a seeded delay while Engine::run executes a non-terminating shape; return time, result and post-resume probe observed from a parent process",
              text="Exploration: 23 non-terminating shapes x {JIT on, JIT off, module} x interrupt delays 0..600 ms; violation = Engine::run has not returned 25 s after the request, returns Ok, panics, or the probe after resume() answers wrongly.",
              note="'Bounded number of further steps' is decided by a generous wall-clock bound (no dispatch-counter hook was built).", ref="DESIGN.md §5 C17"),
